@@ -1,5 +1,238 @@
 package main
 
+import (
+	"fmt"
+	"go/ast"
+	"go/constant"
+	"go/token"
+	"go/types"
+	"sort"
+	"strings"
+)
+
+// Thin wrappers: functions whose body is a straight line of
+//     x, err := f(args)      (or = ; any number of results)
+//     if err != nil { return ... }
+//     return e1, e2, ...
+// over variables, literals, conversions and (nested) calls.  Each is rendered as a term of the small
+// language of coq/Gen/GenSupport.v (wstmt / wexpr); GenProofs compare the terms with the documented
+// compositions and give them a semantics.  A function that does not fit is simply not listed.
+
+type wrapTr struct {
+	p    *pkgInfo
+	core *pkgInfo
+	pkgs map[*types.Package]*pkgInfo
+	ok   bool
+}
+
+func (t *wrapTr) bad() string { t.ok = false; return "EBad" }
+
+func q(s string) string { return `"` + strings.ReplaceAll(s, `"`, `""`) + `"` }
+
+func (t *wrapTr) expr(e ast.Expr) string {
+	tv := t.p.info.Types[e]
+	if tv.Value != nil {
+		switch tv.Value.Kind() {
+		case constant.Bool:
+			if constant.BoolVal(tv.Value) {
+				return "(EBool true)"
+			}
+			return "(EBool false)"
+		case constant.String:
+			return "(ELit " + q(constant.StringVal(tv.Value)) + ")"
+		case constant.Int:
+			return "(ELit " + q(tv.Value.ExactString()) + ")"
+		}
+		return t.bad()
+	}
+	switch x := e.(type) {
+	case *ast.ParenExpr:
+		return t.expr(x.X)
+	case *ast.Ident:
+		if tv.IsNil() {
+			return "ENil"
+		}
+		if o := t.p.info.Uses[x]; o != nil {
+			if v, ok := o.(*types.Var); ok {
+				if pi, internal := t.pkgs[v.Pkg()]; internal && v.Parent() == pi.pkg.Scope() {
+					return "(EGlobal " + q(x.Name) + ")"
+				}
+				return "(EVar " + q(x.Name) + ")"
+			}
+		}
+		return t.bad()
+	case *ast.UnaryExpr:
+		if x.Op == token.AND {
+			return "(EAddr " + t.expr(x.X) + ")"
+		}
+		return t.bad()
+	case *ast.CallExpr:
+		// conversion
+		if ftv, ok := t.p.info.Types[x.Fun]; ok && ftv.IsType() && len(x.Args) == 1 {
+			return "(EConv " + q(types.TypeString(ftv.Type, func(p *types.Package) string { return p.Name() })) + " " + t.expr(x.Args[0]) + ")"
+		}
+		var callee *types.Func
+		var args []string
+		switch f := x.Fun.(type) {
+		case *ast.Ident:
+			if b, ok := t.p.info.Uses[f].(*types.Builtin); ok {
+				if b.Name() == "len" || b.Name() == "string" {
+					return t.bad()
+				}
+				return t.bad()
+			}
+			callee, _ = t.p.info.Uses[f].(*types.Func)
+		case *ast.SelectorExpr:
+			if sel := t.p.info.Selections[f]; sel != nil {
+				if fn, ok := sel.Obj().(*types.Func); ok {
+					callee = fn
+					args = append(args, t.expr(f.X))
+				}
+			} else {
+				callee, _ = t.p.info.Uses[f.Sel].(*types.Func)
+			}
+		}
+		if callee == nil {
+			return t.bad()
+		}
+		name := ""
+		if _, internal := t.pkgs[callee.Pkg()]; internal {
+			name = funcName(t.core.pkg, callee)
+		} else {
+			name = extName(callee)
+		}
+		for i, a := range x.Args {
+			if i == len(x.Args)-1 && x.Ellipsis != token.NoPos {
+				args = append(args, "(ESpread "+t.expr(a)+")")
+			} else {
+				args = append(args, t.expr(a))
+			}
+		}
+		return "(ECall " + q(name) + " [" + strings.Join(args, "; ") + "])"
+	}
+	return t.bad()
+}
+
+func (t *wrapTr) lhsNames(es []ast.Expr) string {
+	var out []string
+	for _, e := range es {
+		id, ok := e.(*ast.Ident)
+		if !ok {
+			t.ok = false
+			return "[]"
+		}
+		out = append(out, q(id.Name))
+	}
+	return "[" + strings.Join(out, "; ") + "]"
+}
+
+func (t *wrapTr) exprs(es []ast.Expr) string {
+	var out []string
+	for _, e := range es {
+		out = append(out, t.expr(e))
+	}
+	return "[" + strings.Join(out, "; ") + "]"
+}
+
+func (t *wrapTr) stmt(s ast.Stmt) string {
+	switch x := s.(type) {
+	case *ast.AssignStmt:
+		if len(x.Rhs) != 1 || (x.Tok != token.ASSIGN && x.Tok != token.DEFINE) {
+			t.ok = false
+			return ""
+		}
+		return "SAssign " + t.lhsNames(x.Lhs) + " " + t.expr(x.Rhs[0])
+	case *ast.IfStmt:
+		// if err != nil { return ... }
+		if x.Init != nil || x.Else != nil || len(x.Body.List) != 1 {
+			t.ok = false
+			return ""
+		}
+		be, ok := x.Cond.(*ast.BinaryExpr)
+		if !ok || be.Op != token.NEQ || !t.p.info.Types[be.Y].IsNil() {
+			t.ok = false
+			return ""
+		}
+		id, ok := be.X.(*ast.Ident)
+		if !ok {
+			t.ok = false
+			return ""
+		}
+		rs, ok := x.Body.List[0].(*ast.ReturnStmt)
+		if !ok {
+			t.ok = false
+			return ""
+		}
+		return "SIfErr " + q(id.Name) + " " + t.exprs(rs.Results)
+	case *ast.ReturnStmt:
+		return "SRet " + t.exprs(x.Results)
+	case *ast.ExprStmt:
+		if _, ok := x.X.(*ast.CallExpr); ok {
+			return "SAssign [] " + t.expr(x.X)
+		}
+	}
+	t.ok = false
+	return ""
+}
+
 func genWrappers(core *pkgInfo, subs []*pkgInfo) string {
-	return "(* GENERATED by go2v - wrappers: not yet implemented *)\n"
+	pkgs := map[*types.Package]*pkgInfo{core.pkg: core}
+	for _, s := range subs {
+		pkgs[s.pkg] = s
+	}
+	type entry struct{ name, params, body, pos string }
+	var ents []entry
+	for _, p := range append([]*pkgInfo{core}, subs...) {
+		for _, f := range p.files {
+			for _, d := range f.Decls {
+				fn, ok := d.(*ast.FuncDecl)
+				if !ok || fn.Body == nil || len(fn.Body.List) == 0 || len(fn.Body.List) > 12 {
+					continue
+				}
+				obj := p.info.Defs[fn.Name].(*types.Func)
+				t := &wrapTr{p: p, core: core, pkgs: pkgs, ok: true}
+				var params []string
+				if fn.Recv != nil && len(fn.Recv.List) > 0 && len(fn.Recv.List[0].Names) > 0 {
+					params = append(params, q(fn.Recv.List[0].Names[0].Name))
+				}
+				for _, fld := range fn.Type.Params.List {
+					for _, id := range fld.Names {
+						params = append(params, q(id.Name))
+					}
+				}
+				var stmts []string
+				calls := 0
+				for _, s := range fn.Body.List {
+					st := t.stmt(s)
+					if !t.ok {
+						break
+					}
+					calls += strings.Count(st, "ECall")
+					stmts = append(stmts, st)
+				}
+				// a wrapper calls something and ends in a return (or in the call itself)
+				if !t.ok || calls == 0 {
+					continue
+				}
+				ents = append(ents, entry{name: funcName(core.pkg, obj), params: "[" + strings.Join(params, "; ") + "]",
+					body: "[" + strings.Join(stmts, ";\n      ") + "]", pos: strings.TrimPrefix(p.fset.Position(fn.Pos()).String(), core.dir+"/")})
+			}
+		}
+	}
+	sort.Slice(ents, func(i, j int) bool { return ents[i].name < ents[j].name })
+	var sb strings.Builder
+	sb.WriteString("(* GENERATED by /verif/translator (go2v) from the current sources of /repo - do not edit.\n")
+	sb.WriteString("   Every function of mxj, j2x, x2j and x2j-wrapper whose body is a straight line of calls,\n")
+	sb.WriteString("   `if err != nil { return ... }` and a final return: (name, (parameters, body)). *)\n")
+	sb.WriteString("From Mxj Require Import Gen.GenSupport.\nLocal Open Scope string_scope.\n\n")
+	sb.WriteString("Definition wrappers : list (string * (list string * list wstmt)) := [\n")
+	for i, e := range ents {
+		sep := ";"
+		if i == len(ents)-1 {
+			sep = ""
+		}
+		fmt.Fprintf(&sb, "  (* %s *)\n  (%s, (%s,\n     %s))%s\n", e.pos, q(e.name), e.params, e.body, sep)
+	}
+	sb.WriteString("].\n")
+	return sb.String()
 }
